@@ -74,8 +74,8 @@ Definition char_line (c : Z) : list ascii :=
   chars "X = " ++ [c_quote; ascii_of_N (Z.to_N c); c_quote].
 Definition char_ok (c : Z) : bool :=
   match const_value_of_line (char_line c) with Some v => Z.eqb v c | None => false end.
-(* the four characters the lexer eats, and the backslash (an escape introducer: written '\\') *)
-Definition char_exception (c : Z) : bool := (c =? 44) || (c =? 35) || (c =? 40) || (c =? 41) || (c =? 92).
+(* the backslash is an escape introducer: it is written '\\' *)
+Definition char_exception (c : Z) : bool := (c =? 92).
 Lemma char_sweep : forallb (fun c => char_exception c || char_ok c) (zrange 32 95) = true.
 Proof. vm_compute. reflexivity. Qed.
 Lemma char_literals c : Z.le 32 c -> Z.le c 126 -> char_exception c = false -> const_value_of_line (char_line c) = Some c.
@@ -85,12 +85,16 @@ Proof.
   unfold char_ok in H. destruct (const_value_of_line (char_line c)) as [v|]; [|discriminate].
   apply Z.eqb_eq in H. congruence.
 Qed.
-Lemma char_comma_is_32 : const_value_of_line (char_line 44) = Some 32.
-Proof. vm_compute. reflexivity. Qed.
-Lemma char_hash_paren_rejected :
-  const_value_of_line (char_line 35) = None /\ const_value_of_line (char_line 40) = None /\
-  const_value_of_line (char_line 41) = None.
-Proof. vm_compute. auto. Qed.
+Lemma char_all c : Z.le 32 c -> Z.le c 126 -> c <> 92 -> const_value_of_line (char_line c) = Some c.
+Proof.
+  intros H1 H2 H3. apply char_literals; auto. unfold char_exception. apply Z.eqb_neq. exact H3.
+Qed.
+(* the characters that used to be eaten by the lexer (comma, #, parentheses, blank) *)
+Lemma char_former_exceptions :
+  const_value_of_line (char_line 44) = Some 44 /\ const_value_of_line (char_line 35) = Some 35 /\
+  const_value_of_line (char_line 40) = Some 40 /\ const_value_of_line (char_line 41) = Some 41 /\
+  const_value_of_line (char_line 32) = Some 32.
+Proof. vm_compute. auto 6. Qed.
 Lemma char_backslash_escaped :
   const_value_of_line (chars "X = " ++ [c_quote; c_bsl; c_bsl; c_quote]) = Some 92.
 Proof. vm_compute. reflexivity. Qed.
